@@ -228,7 +228,17 @@ func runSensitivity(r *Report) {
 		applied++
 		if strings.Contains(string(out), "VIOLATION property="+r.Property) {
 			detected++
-			results = append(results, mutantResult{"seeded/" + meta.ID, "detected", ""})
+			first := ""
+			for _, ln := range strings.Split(string(out), "\n") {
+				if strings.Contains(ln, "[C") && strings.Contains(ln, "]") {
+					first = strings.ReplaceAll(ln, scratch+"/", "")
+					break
+				}
+			}
+			if len(first) > 300 {
+				first = first[:300]
+			}
+			results = append(results, mutantResult{"seeded/" + meta.ID, "detected", first})
 		} else {
 			results = append(results, mutantResult{"seeded/" + meta.ID, "MISSED", ""})
 			fmt.Printf("SENSITIVITY: the checker for %s no longer detects seeded change %s\n", r.Property, meta.ID)
